@@ -1,11 +1,15 @@
 #!/bin/bash
 # usage: seedtest.sh <patch-file | rev:<commit>> <property-id> [extra check.py args]
-# applies the change to /repo's working tree, runs the quick check, restores the tree.
+# applies the change to the working tree of $VERIF_REPO (default /repo), runs the check against it, restores the tree.
+# With VERIF_REPO pointing at a scratch worktree (outside /repo and /verif) the checks import fortls from there
+# (PYTHONPATH precedes the overlay's /repo entry), so /repo itself stays untouched.
 set -u
 P="$1"; PID="$2"; shift 2
-cd /repo || exit 9
+R="${VERIF_REPO:-/repo}"
+cd "$R" || exit 9
 if [ -n "$(git status --porcelain --untracked-files=no)" ]; then echo "repo dirty"; exit 9; fi
 if [[ "$P" == rev:* ]]; then git show "${P#rev:}" | git apply -R || exit 9; else git apply "$P" || exit 9; fi
+if [ "$R" != /repo ]; then export VERIF_REPO="$R" PYTHONPATH="$R"; fi
 cd /verif && python3 bin/check.py "$PID" "$@"; rc=$?
-git -C /repo checkout -- . ; echo "seedtest rc=$rc"
+git -C "$R" checkout -- . ; echo "seedtest rc=$rc"
 exit $rc
